@@ -21,7 +21,7 @@ def gen(rng, tier):
     a = G.gen_cfg(rng, strings_only=True, max_vars=3, max_prods=5, max_body=3)
     b = G.gen_cfg(rng, strings_only=True, max_vars=3, max_prods=5, max_body=3)
     for c in (a, b):
-        if rng.chance(0.2):
+        if rng.chance(0.4):
             old = rng.pick(c["vars"])
             new = rng.pick(RES)
             if new not in c["vars"]:
